@@ -557,7 +557,7 @@ def _traverse(obj, keys):
     for key in keys:
         if type(obj) not in list_or_dict: return None
         try: obj = obj[key]
-        except (KeyError, IndexError): return None
+        except (KeyError, IndexError, TypeError): return None  # TypeError: a key applied to a list (json_extract gives NULL as well)
     return obj
 
 def _extract(expr, *paths):
